@@ -107,9 +107,14 @@ impl Scenario for ConcSc {
             for t in 0..n {
                 let mut mine = vec![];
                 for c in 0..per {
+                    // thread 0 starts with the anchor call; the others start — when the session is biased — with the SAME
+                    // operation on other arguments, or (one time in three) with the very same call: two callers asking the
+                    // same question at once is what a verdict memo or a "pending" slot gets wrong
                     let i = if t == 0 && c == 0 {
                         anchor
-                    } else if same && c == 0 && !same_op.is_empty() {
+                    } else if same && c == 0 && (same_op.is_empty() || x.chance(1, 3)) {
+                        anchor
+                    } else if same && c == 0 {
                         same_op[x.below(same_op.len() as u64) as usize]
                     } else {
                         x.below(trace.len() as u64) as usize
@@ -167,6 +172,32 @@ impl Scenario for ConcSc {
                 let outs = conc::run_free(&build(), plan.seed ^ 0xF, 12);
                 check(rec, &outs, "free-running");
                 rec.fault("free-running-session");
+            }
+        }
+        // (d) a worker that makes its last calls while it is being torn down (from the destructor of a thread-local of its
+        // own, registered before or after its first use of the library)
+        if plan.seed % 3 == 0 {
+            let mut x = Xo::derive(plan.seed, &[0x7EA2]);
+            let picks: Vec<usize> = (0..4).map(|_| x.below(trace.len() as u64) as usize).collect();
+            let calls: Vec<Call> = picks.iter().map(|i| Call { lib, g: trace[*i].g, op: trace[*i].op, args: trace[*i].args.clone(), clock: trace[*i].clock, route: trace[*i].route }).collect();
+            let early = x.chance(1, 2);
+            let outs = conc::run_at_thread_exit(calls, 2, early, plan.seed);
+            rec.fault("call-made-during-thread-teardown");
+            for (r, got) in outs.iter().enumerate() {
+                let e = &trace[picks[r]];
+                let same = match got {
+                    None => false,
+                    Some(got) if is_randomized(e.op) => got.kind() == e.out.kind(),
+                    Some(got) => match (got, &e.out) {
+                        (Out::Ok(a), Out::Ok(b)) => a == b,
+                        (Out::Rej(_), Out::Rej(_)) => true,
+                        (Out::Panic(_), Out::Panic(_)) => true,
+                        _ => false,
+                    },
+                };
+                rec.expect(&plan.property, "concurrent-callers-get-sequential-results", same, || {
+                    format!("{:?} at-thread-exit g={} | call #{} ({}): alone the call returns {}, made {} it returns {}", e.op, e.g.name(), r, if r >= 2 { if early { "from a destructor registered before the thread's first library call" } else { "from a destructor registered after the thread's first library call" } } else { "before the teardown" }, brief(&e.out), if r >= 2 { "during thread teardown" } else { "normally" }, got.as_ref().map(brief).unwrap_or_else(|| "nothing (no result arrived)".into()))
+                });
             }
         }
         rec.sample(|| format!("{} traced calls of class {}; {} sessions", trace.len(), inner_class, plan.steps.len()));
